@@ -212,6 +212,10 @@ func Unwrap(v ssa.Value) ssa.Value {
 						v = val
 						continue
 					}
+					if val, ok := forwardedStore(x, a); ok {
+						v = val
+						continue
+					}
 				}
 				if fv, ok := x.X.(*ssa.FreeVar); ok {
 					if val, ok := freeVarBinding(fv); ok {
@@ -678,4 +682,23 @@ func MentionsField(v ssa.Value, name string, depth int) bool {
 		}
 	}
 	return false
+}
+
+// forwardedStore: the load reads a local cell that was stored earlier in the same basic block (the
+// latest such store; sequential semantics): the loaded value is the stored one.
+func forwardedStore(load *ssa.UnOp, a *ssa.Alloc) (ssa.Value, bool) {
+	b := load.Block()
+	if b == nil {
+		return nil, false
+	}
+	var val ssa.Value
+	for _, in := range b.Instrs {
+		if in == ssa.Instruction(load) {
+			break
+		}
+		if st, ok := in.(*ssa.Store); ok && st.Addr == ssa.Value(a) {
+			val = st.Val
+		}
+	}
+	return val, val != nil
 }
